@@ -228,6 +228,11 @@ func main() {
 			arr[i] = 0xA5
 		}
 		buf := arr[:n]
+		if c.Api != "Bytes" {
+			// helpers and the other entry points get a slice with cap == len: an index past the end panics instead of
+			// silently landing in spare capacity (Bytes keeps spare capacity: that is the in-place path of parse.NewInput)
+			buf = arr[:n:n]
+		}
 		ev := Event{ID: c.ID, Api: c.Api, Lang: c.Lang, Opts: c.Opts, Prec: c.Prec, N: n, OrigSha: sha(orig), Orig: lib.Bytes{}, Ret: lib.Bytes{}, TailOK: true}
 		pending.Store(ev)
 		deadline := 30*time.Second + time.Duration(n)*40*time.Microsecond
